@@ -11,18 +11,19 @@ from vlib.workload import case_rng, clear_typelib_caches, per_shard, quiet
 ID = "C11"
 LEVEL = "exploration"
 RULE = ("base types T from grammar U x wrapper chains of length 1-3 over {NewType, TypeAliasType(value), TypeAliasType('string'), Final, "
-        "ClassVar, 'string reference', ForwardRef(module=...)} x positions {root, collection argument, mapping value, tuple member, union "
+        "ClassVar, 'string reference' (a module-level name, a dotted path into a class \"Holder.Sub.Member\", the type's own source text "
+        "\"typing.Dict[uuid.UUID, Model]\"), ForwardRef(module=...)} x positions {root, collection argument, mapping value, tuple member, union "
         "member, class field} (Final at root and on fields, ClassVar at root only); string references issued from the defining module through "
-        "call depths 1-6 and from another module by qualified name; one evaluation = one input (valid value, wire form, corrupted wire, hostile "
-        "pool) given to the routines for W(T)-at-position and T-at-position, marshal and unmarshal, outcomes compared (same canonical result / "
+        "call depths 1-6 and from another module by qualified name (with and without that module importing the defining one); one evaluation = one input (valid value, wire form, corrupted wire, hostile "
+        "pool) given to the routines for W(T)-at-position and T-at-position, marshal, unmarshal and the codecs built for both (encode, decode, decode of the plain codec's payload), outcomes compared (same canonical result / "
         "same exception class); distinct = (chain, position, base source, canonical input)")
 ASSUMPTIONS = [
     "wrappers are only placed where typing accepts them at runtime; names are unique per run (the same-unqualified-name-in-two-modules scenario belongs to C12)",
     "at the class-field position the two classes differ by construction, so the field values are compared",
 ]
 PLAN = {"quick": dict(cases=2600, inputs=14), "thorough": dict(cases=60000, inputs=30)}
-FLOORS = {"quick": {"pairs_compared": 60000, "chain_position_combos": 120, "string_ref_calls": 5000, "builds": 2400},
-          "thorough": {"pairs_compared": 2500000, "chain_position_combos": 300, "string_ref_calls": 200000, "builds": 55000}}
+FLOORS = {"quick": {"pairs_compared": 60000, "chain_position_combos": 120, "string_ref_calls": 5000, "builds": 2400, "codec_pairs_compared": 10000},
+          "thorough": {"pairs_compared": 2500000, "chain_position_combos": 300, "string_ref_calls": 200000, "builds": 55000, "codec_pairs_compared": 400000}}
 
 NAMED = ["newtype", "alias", "stralias"]
 POSITIONS = ["root", "coll", "mapval", "tuple", "union", "field"]
@@ -84,14 +85,14 @@ def run_case(sh, i, plan):
         last = j == n - 1
         cands = list(NAMED)
         if last and pos == "root":
-            cands += ["final", "classvar", "strref", "fwdref", "strref", "fwdref"]
+            cands += ["final", "classvar", "strref", "fwdref", "strref", "fwdref", "strref_dotted", "strexpr"]
         elif last and pos == "field":
             cands += ["final", "strref"]
         elif last:
             cands += ["strref", "fwdref"]
         kind = rng.choice(cands)
         if last and force_root_ref:
-            kind = rng.choice(["strref", "strref", "fwdref"])
+            kind = rng.choice(["strref", "strref", "fwdref", "strref_dotted", "strref_dotted", "strexpr"])
         chain.append(kind)
         w = gen.wrap_of(w, kind)
     wsrc, wfield = place(prog, gen, w, pos, "w")
@@ -109,9 +110,12 @@ def run_case(sh, i, plan):
         depth = rng.randrange(1, 7)
         caller = getattr(prog.module, f"_call{depth}")
         via_caller = isinstance(W, str)
-        if via_caller and rng.random() < 0.35:
+        if via_caller and W.replace(".", "").isidentifier() and rng.random() < 0.35:
             other = U.Program(rng)
-            other.imports.append(prog)
+            if rng.random() < 0.5:
+                other.imports.append(prog)  # else: the defining module is loaded, but not bound in the caller's namespace
+            else:
+                label += "(not-imported)"
             other.build()
             W = f"{prog.name}.{W}"
             caller = getattr(other.module, f"_call{depth}")
@@ -136,6 +140,10 @@ def run_case(sh, i, plan):
         if bt[0] != "ok" or bw[0] != "ok" or mt[0] != "ok" or mw[0] != "ok":
             return
         um_t, um_w, mm_t, mm_w = bt[1], bw[1], mt[1], mw[1]
+        ct, cw = outcome(typelib.codec, T), call(typelib.codec, W)
+        if ct[0] == "ok" and cw[0] != "ok":
+            sh.violation("wrapped-does-not-build", which="codec", got=short(cw), **rec)
+        codecs = (ct[1], cw[1]) if ct[0] == "ok" and cw[0] == "ok" and pos != "field" else None
         vg = U.ValueGen(rng)
         inputs = []
         for _ in range(max(2, plan["inputs"] // 4)):
@@ -197,6 +205,20 @@ def run_case(sh, i, plan):
                 same = a[1] == b[1]
             if not same:
                 sh.violation("not-transparent", direction=direction, input=short(x, 250), plain=short(a, 250), wrapped=short(b, 250), **rec)
+            # the codecs built for both: encode the value / decode the payload, and decode what the plain codec encoded
+            if codecs is not None and (direction == "m" or isinstance(x, (bytes, bytearray))):
+                fa, fb = (codecs[0].encode, codecs[1].encode) if direction == "m" else (codecs[0].decode, codecs[1].decode)
+                ca, cb = outcome(fa, x), outcome(fb, x)
+                sh.count("codec_pairs_compared")
+                pairs = [(ca, cb)]
+                if direction == "m" and ca[0] == "ok" and isinstance(ca[1], (bytes, bytearray, memoryview)):
+                    pairs.append((outcome(codecs[0].decode, ca[1]), outcome(codecs[1].decode, ca[1])))
+                for qa, qb in pairs:
+                    if "skip" in (qa[0], qb[0]):
+                        continue
+                    ok = qa[0] == qb[0] and (canon(qa[1], strict=True) == canon(qb[1], strict=True) if qa[0] == "ok" else qa[1] == qb[1])
+                    if not ok:
+                        sh.violation("not-transparent", direction="codec-" + direction, input=short(x, 250), plain=short(qa, 250), wrapped=short(qb, 250), **rec)
         if i % 100 == 0:
             sh.sample({"chain": label, "base": base.src, "wrapped": wsrc})
     finally:
